@@ -48,6 +48,22 @@ func (e *Engine) findNonNilGlobals() {
 	}
 }
 
+// nonNilValueFn: the function belongs to a package declared `nonnilpkg`.
+func (e *Engine) nonNilValueFn(callee *ssa.Function) bool {
+	path := ""
+	if callee.Pkg != nil {
+		path = callee.Pkg.Pkg.Path()
+	} else if callee.Object() != nil && callee.Object().Pkg() != nil {
+		path = callee.Object().Pkg().Path()
+	}
+	for _, p := range e.cs.NonNilPkgs {
+		if path == p || (strings.HasSuffix(p, "/...") && strings.HasPrefix(path, strings.TrimSuffix(p, "/..."))) {
+			return true
+		}
+	}
+	return false
+}
+
 func (e *Engine) nonNilValue(v ssa.Value, depth int) bool {
 	if depth > 3 {
 		return false
